@@ -70,6 +70,9 @@ let ctx_of = function
 let kind_of = function A "KRaw" -> KRaw | A "KDownsample" -> KDownsample | A "KQuerier" -> KQuerier | _ -> fail_sx "kind"
 let tbl_of = list_of (function L [p; v; b] -> ((str_of p, str_of v), bool_of b) | _ -> fail_sx "oracle entry")
 
+let tgop_of = function A "TgEq" -> TgEq | A "TgNeq" -> TgNeq | A "TgRe" -> TgRe | A "TgNre" -> TgNre | _ -> fail_sx "tag op"
+let tag_of = function L [k; op; v] -> { tg_key = str_of k; tg_op = tgop_of op; tg_val = str_of v } | _ -> fail_sx "tag"
+
 let hex_of_chars (l : char list) : string =
   let b = Buffer.create 4096 in
   List.iter (fun c -> Buffer.add_string b (Printf.sprintf "%02x" (Char.code c))) l;
@@ -103,6 +106,20 @@ let handle (x : sx) : unit =
   | L [A "prof"; id; table; from; to_; cluster; sels; full] ->
     print_stmt (int_of id) (fcase_pieces { fc_id = z_of id; fc_table = str_of table; fc_from_ns = z_of from; fc_to_ns = z_of to_;
                                           fc_cluster = bool_of cluster; fc_sels = list_of selector_of sels; fc_full = tbl_of full })
+  (* round 4: Tempo v1 (model/ScansTempo.v): (tv1 <id> <db> <cluster> <from> <to> <request>) with <request> =
+     (search (<tag> ...) <limit> <min> <max> <v2>) | (trace <id> <windowed>) | (tags) | (values <tag>);
+     (tvi <id> <db> <dist> (<tag> ...) <from> <to> <min> <max> <limit> <v2>) = tempo.SQLIndexQuery alone; <tag> = (<key> <op> <val>) *)
+  | L [A "tv1"; id; db; cluster; from; to_; rq] ->
+    let req = (match rq with
+      | L [A "search"; tags; lim; mn; mx; v2] -> TSearch (list_of tag_of tags, z_of lim, z_of mn, z_of mx, bool_of v2)
+      | L [A "trace"; tid; w] -> TTrace (str_of tid, bool_of w)
+      | L [A "tags"] -> TTags
+      | L [A "values"; tg] -> TValues (str_of tg)
+      | _ -> fail_sx "tempo request") in
+    print_stmt (int_of id) (tv1_pieces (TvService { tv_id = z_of id; tv_db = str_of db; tv_cluster = bool_of cluster; tv_from = z_of from;
+                                                    tv_to = z_of to_; tv_req = req; tv_sql = [] }))
+  | L [A "tvi"; id; db; dist; tags; from; to_; mn; mx; lim; v2] ->
+    print_stmt (int_of id) (tv1_pieces (TvIndex (str_of db, bool_of dist, list_of tag_of tags, z_of from, z_of to_, z_of mn, z_of mx, z_of lim, bool_of v2)))
   | _ -> failwith "bad case line"
 
 let () =
